@@ -20,7 +20,7 @@ RULE = (
     "non-trivial = >=2 plates of unequal sizes or >=4 thetas"
 )
 ASSUMPTIONS = ["means bounded by a few hundred so squares stay finite", "scalar reference uses math.fsum and a stable log-sum-exp"]
-REQUIRED = {"cli_end_to_end_runs": {"quick": 5, "thorough": 50}, "scorer_runs_on_overlapping_views": {"quick": 10, "thorough": 150}, "production_size_plates": {"quick": 40, "thorough": 800}, "plate_scores_vs_reference": {"quick": 10000, "thorough": 200000}, "metamorphic_checks": {"quick": 10000, "thorough": 200000}, "scorer_entry_runs": {"quick": 800, "thorough": 15000}, "all_zero_distance_cases": {"quick": 10, "thorough": 200}}
+REQUIRED = {"configs_with_more_than_5000_triples": {"quick": 10, "thorough": 200}, "cli_end_to_end_runs": {"quick": 5, "thorough": 50}, "scorer_runs_on_overlapping_views": {"quick": 10, "thorough": 150}, "production_size_plates": {"quick": 40, "thorough": 800}, "plate_scores_vs_reference": {"quick": 10000, "thorough": 200000}, "metamorphic_checks": {"quick": 10000, "thorough": 200000}, "scorer_entry_runs": {"quick": 800, "thorough": 15000}, "all_zero_distance_cases": {"quick": 10, "thorough": 200}}
 N_CFG = {"quick": 960, "thorough": 16000}
 TOL = 1e-9
 
@@ -98,6 +98,12 @@ def gen_config(rng):
     T = int(rng.integers(3, 8)) if u < 0.6 else int(rng.integers(8, 17)) if u < 0.9 else int(rng.integers(17, 33))
     P = int(rng.integers(1, 9))
     sizes = [int(rng.integers(1, 13)) for _ in range(P)]
+    if rng.random() < 0.025:
+        # more triples than the scorer's default budget of 5000 (C(33,3) = 5456): all of them must still be used when
+        # the configured budget covers them
+        T = int(rng.integers(33, 37))
+        P = int(rng.integers(1, 4))
+        sizes = [int(rng.integers(1, 5)) for _ in range(P)]
     if rng.random() < 0.5:
         sizes[int(rng.integers(P))] = 1
     if rng.random() < 0.15:
@@ -174,6 +180,8 @@ def run_shard(rec, tier, seed, shard, nshards):
         budget = total + int(rng.integers(0, 3))
         if max(sizes) >= 96:
             rec.count("production_size_plates")
+        if T >= 33:
+            rec.count("configs_with_more_than_5000_triples")
         nontriv = (P >= 2 and len(set(sizes)) > 1) or T >= 4
         w = {"n_thetas": T, "plate_sizes": sizes, "zero_distance_entries": int((d == 0).sum() - T), "budget": budget}
         if not d.any():
